@@ -44,7 +44,10 @@ class C15(Check):
                  "type-directed random ASTs printed minimally (per the generated table) and fully parenthesised through ConfigCompiler::CompileText "
                  "+ ScriptFrame, twice, in forked children; hostile texts/byte strings only have to return or throw")
     level_text = ("Machine-checked theorems (Lean 4 kernel) for EVERY program of the sub-language, environment and fuel: the generated grammar "
-                  "precedence/associativity equals the reference table for levels 1-13; ONE operand-class table for all 16 binary operators (value of "
+                  "precedence/associativity equals the reference table for levels 1-13, the reference table IS the operator table of "
+                  "doc/17-language-reference.md (read from the document on every run: same operators at every level 1-13, rows sorted), every two "
+                  "of the 20 binary operators are ordered by config_parser.yy exactly as by the document (all 400 pairs) and every operator of the "
+                  "model has exactly one documented row; ONE operand-class table for all 16 binary operators (value of "
                   "which type / type error / division error / element-wise on the heap) to which the transcription of value-operators.cpp conforms; "
                   "evaluation is a function; every evaluation ends in a value, a script error, an explicitly unmodelled case or fuel exhaustion and "
                   "NEVER in an internal error of the model (heap well-formedness invariant over all tasks and all ~45 natives); the frame-depth "
@@ -54,26 +57,36 @@ class C15(Check):
                   "break/continue/return stop at the innermost loop/function (while AND for; a call answers a plain value whatever code its body ends "
                   "with; try/except forwards return/break/continue from the body and from the handler); try catches script errors; an array or "
                   "dictionary literal answers an address that was free before its evaluation (for all elements/frames/states: a NEW container every "
-                  "time); a call's answer does not depend on the caller's locals/this; every text of the literal grammar D+(.D+)?(ms|s|m|h|d)? is "
+                  "time); a call's answer does not depend on the caller's locals/this; an array equals itself and two different arrays of different length are "
+                  "unequal whatever their elements (for every heap); `!=` answers the negation of `==` and `!in` the negation of `in` for all operands, "
+                  "frames, states and fuel (same evaluation order, errors and final state); `array - []` is a new array with exactly the left "
+                  "operand's elements; Array#join of the empty array is Empty and of strings x0..xn is "
+                  "x0+sep+x1+...+sep+xn with the state unchanged (for every separator, list and state, through the native's dispatch); every text of the literal grammar D+(.D+)?(ms|s|m|h|d)? is "
                   "split by the lexer model into (digits, fraction length, suffix) and valued by the specification as digits*10^-n*documented factor, "
                   "and the lexer's operation sequence per suffix is, read exactly, multiplication by that factor; whole trace: every in-protocol "
                   "answer of the model for every program passes every clause of Spec.checkProgram. The model is run (Float = binary64) on "
                   "every generated AST and must reproduce the real evaluator's canonical result bit for bit — number and duration literals included: "
                   "the model computes their values itself (Literal.lean) and agreed bit for bit with the real lexer on every literal of every run; "
                   "the spec predicate (no crash, deterministic across compilations AND across two evaluations of one compiled expression, "
-                  "parenthesisation-independent, every literal the real lexer evaluated within 2^-50 of its documented exact value, and the family "
-                  "clauses against the reference's answer) is evaluated on the implementation's own observations")
+                  "parenthesisation-independent both for the minimal parentheses of the grammar's table (precedence_as_declared) and for the minimal "
+                  "parentheses of the DOCUMENT's table (precedence_as_documented: a text that relies on the documented precedence/associativity "
+                  "means what its fully parenthesised form means — a concrete failing program when grammar and document drift apart), every literal the real lexer evaluated within 2^-50 of its documented exact value, the 30 `expression (result)` examples of the "
+                  "document's operator table evaluate to their documented results (reference_example_as_documented; `~true (false)` does not: F-C15g), "
+                  "and the family clauses against the reference's answer) is evaluated on the implementation's own observations")
     level_note = ("Trusted: Lean kernel (+ propext, Classical.choice, Quot.sound), gen/c15_precedence.py (anchored regexes; lost anchor => tie broken), "
                   "harness/driver. Not proved, only exercised: memory safety/crash-freedom of the C++ (forked children; crashes found on the unchanged "
-                  "tree: F-C15a/d repaired by 09db53a/13754a5, F-C15f repaired by 1f98393, F-C15b/c known), IEEE arithmetic (Float is opaque to the kernel; no theorem depends on it), parsing beyond the "
+                  "tree: F-C15a/d repaired by 09db53a/13754a5, F-C15f repaired by 1f98393, F-C15b/c known; documentation/code divergences known: F-C15e Array#join of Booleans, F-C15g `~true`), IEEE arithmetic (Float is opaque to the kernel; no theorem depends on it), parsing beyond the "
                   "precedence table (covered by the two printings). Outside the modelled domain (reported as skipped_unmodelled, not compared): C++ "
                   "undefined conversions (static_cast<int> out of range, shifts >= 32), ToString of containers, natives called with arguments the "
                   "function wrapper would convert, Array#reduce callbacks that mutate the array being reduced, sort with a comparator, references, namespaces, "
                   "include/object/apply.")
     trusted_base = [
         "gen/c15_precedence.py (anchored regexes over config_parser.yy / config_lexer.ll; the same table feeds the Lean theorem and the harness's printer)",
-        "documented precedence table of doc/17-language-reference.md transcribed once into IcingaProofs/C15.lean (the document gives no associativity: "
-        "left for binary levels, none for relational/equality as the grammar declares and the harness confirms by `a < b < c` being a syntax error)",
+        "documented precedence table: read from doc/17-language-reference.md by gen/c15_precedence.py on every run (anchored row regex; lost anchor => "
+        "tie broken) into Gen/Precedence.lean (`documented`) and into the harness's third printer; `reference_matches_document` proves the hand-written "
+        "`reference` of IcingaProofs/C15.lean equal to it. Still transcribed by hand: arity per level (1 postfix, 2 prefix, 3-13 binary: the document's "
+        "Examples column) and associativity (the document gives none: left for binary levels, none for relational/equality as the grammar declares "
+        "and the harness confirms by `a < b < c` being a syntax error) — in C15.lean and in DocAssoc() of harness/c15.cpp",
         "Float (binary64) in the compiled driver computes what the C++ double computes; number formatting re-implemented exactly over the bit pattern",
         "errors are compared as value / script error / recursion error only; the recursion error and the parser's capacity error are recognised by "
         "comparing with the message this very build produces for a calibration program (no wording is hard-coded)",
@@ -95,6 +108,10 @@ class C15(Check):
         "array_literal_creates_new_container", "dict_literal_creates_new_container", "try_forwards_flow_control", "loop_control_for",
         "call_absorbs_flow_control", "scoping_call_ignores_caller_scope", "model_trace_meets_spec", "literal_grammar",
         "literal_scale_is_documented_factor", "callback_iteration_over_snapshot",
+        # round 4
+        "reference_matches_document", "binary_operators_ordered_as_documented", "every_operator_documented_once",
+        "array_equality_identity_and_length", "array_join_folds_with_separator", "operator_ne_negates_eq", "not_in_negates_in",
+        "array_minus_empty_array", "reference_examples_hold_in_model_partial", "reference_example_bitwise_not_counterexample",
     ]
 
     # ------------------------------------------------------------------ translator
@@ -125,12 +142,16 @@ class C15(Check):
             raise core.TieBroken("driver:c15:run", "\n".join(lines[-20:]))
         return lines
 
-    def _text(self, harness, line):
-        """program text (minimal printing) of one P/X line"""
+    def _text(self, harness, line, which="min"):
+        """program text of one P/X line: `min` = minimal parentheses per the grammar's table, `doc` = per the documented table"""
         f = self.work("text.ops")
         with open(f, "w") as fh:
             fh.write(runner.strip_obs(line) + "\n")
         rc, out = core.run([harness, "text", f], env=self._env())
+        if which == "doc":
+            m = re.search(r"\n--- \(doc\)\n(.*?)\n--- \(end\)", out, re.S)
+            if m:
+                return m.group(1)
         m = re.search(r"^--- [PX] [^\n]*\n(.*?)(\n--- \(full\)|\Z)", out, re.S | re.M)
         return m.group(1) if m else ""
 
@@ -308,8 +329,10 @@ class C15(Check):
                     "and twice at top level, mutated in place by add/remove/set/clear/index/field assignment: a new container per evaluation; map/filter/any/all "
                     "with use() callbacks that add to / remove from / clear / overwrite the array being iterated, arrays of 0-6 and of 3000/6000 elements: the "
                     "elements visited are those present when the method was called (1f98393); number and "
-                    "duration literals of every suffix with random digits and fractions, compared and combined), each printed minimally per the generated precedence table and fully parenthesised, evaluated "
-                    "3x in forked children; plus hostile texts (token/byte mutations of generated programs, arbitrary byte strings). evaluations = "
+                    "duration literals of every suffix with random digits and fractions, compared and combined; family `prec`: EVERY ordered pair of the 20 binary "
+                    "operators in both tree shapes, every prefix operator against every binary operator in three shapes, every operator against the three "
+                    "postfix forms — 1112 shapes, 2 (quick) / 8 (thorough) draws of operand values each), each printed minimally per the generated precedence table and fully parenthesised, evaluated "
+                    "3x in forked children, plus a third printing with the minimal parentheses of the DOCUMENTED table (evaluated when its text differs); plus hostile texts (token/byte mutations of generated programs, arbitrary byte strings). evaluations = "
                     "3 x programs + hostile texts; non-trivial = programs with more than 6 AST tokens whose model outcome was compared (value or script error)")
         raw = open(save, errors="replace").read().splitlines()
         res.samples = [l[:300] for l in raw[:: max(1, len(raw) // 8)]][:8]
@@ -346,15 +369,18 @@ class C15(Check):
                     except core.TieBroken:
                         return False
                     want = l.split(" model=")[1].split(" impl=")[0][:12] if kind == "MISMATCH" and " model=" in l else ""
-                    return any(x.startswith(kind) and (clause in x) and (want in x) and "impl=syntax" not in x for x in dout)
+                    # (a shrunk variant that no longer parses fails the parenthesisation clauses for a reason of its own: the two texts
+                    #  report the syntax error at different columns)
+                    return any(x.startswith(kind) and (clause in x) and (want in x) and "impl=syntax" not in x
+                               and (clause == "generated_program_parses" or "min=syntax" not in x) for x in dout)
 
                 shown = case
                 # (the join clause only looks at the family tag and the outcome: every shrunk variant that raises would satisfy it)
-                if case.startswith("P ") and clause != "array_join_total_on_scalars" and not case.startswith("P mapmut-") and still(case):   # (the regression lines of F-C15f are minimal already)
+                if case.startswith("P ") and clause not in ("array_join_total_on_scalars", "reference_example_as_documented") and not case.startswith("P mapmut-") and still(case):   # (the regression lines of F-C15f are minimal already)
                     shown = self._shrink_p(harness, driver, case, still)
                     _, sl = self._replay_lines(harness, driver, [shown])
                     shown = sl[0] if sl else shown
-                text = self._text(harness, shown)
+                text = self._text(harness, shown, "doc" if clause == "precedence_as_documented" else "min")
                 key = (sig if kind == "SPECFAIL" else clause, text)
                 if key in seen:
                     continue
@@ -370,6 +396,10 @@ class C15(Check):
     # ------------------------------------------------------------------ known findings (narrow classifiers over the minimised witness)
     def matches_known(self, entry, finding):
         d = finding.classifier_data or {}
+        if finding.kind == "spec" and entry.get("classifier") == "c15_doc_example_bitwise_not":
+            # exactly: the documented-example clause on the program `[~true, false ]`
+            return "clause=reference_example_as_documented" in d.get("driver", "") and \
+                re.fullmatch(r"\[\s*~\s*true\s*,\s*false\s*\]", d.get("text", "").strip()) is not None
         if finding.kind == "spec" and entry.get("classifier") == "c15_join_non_string_scalars":
             # exactly: the join clause, on a program that joins an array literal containing a Boolean
             return "clause=array_join_total_on_scalars" in d.get("driver", "") and \
